@@ -59,13 +59,6 @@ def _plan_nothreads(tier: str, seed: int):
         shards.append({"name": f"rnd{i}", "engine": "jit",
                        "args": {"mode": "random", "n": per},
                        "timeout": 3000})
-    # the same random workload with numba's documented debugging switch
-    # NUMBA_DISABLE_JIT=1 (numpy scalar arithmetic instead of machine ints)
-    for i in range(2 if tier == "quick" else 6):
-        shards.append({"name": f"py{i}", "engine": "py",
-                       "args": {"mode": "random",
-                                "n": 140 if tier == "quick" else 1500},
-                       "timeout": 3000})
     return shards
 
 
